@@ -18,6 +18,16 @@ from astropy import units as u  # noqa: E402
 from astropy.coordinates import ICRS  # noqa: E402
 
 
+# truthy / falsy values a caller may pass for the `latitude` flag (the same object goes to both functions)
+FLAGS = {
+    'True': lambda: True, 'False': lambda: False,
+    'np.True_': lambda: np.True_, 'np.False_': lambda: np.False_,
+    '1': lambda: 1, '0': lambda: 0,
+    'cmp-true': lambda: np.float64(2.0) > 1.0, 'cmp-false': lambda: np.float64(0.0) > 1.0,
+    'np.bool-array-element': lambda: np.array([True, False])[0],
+}
+
+
 def fl(x):
     x = float(x)
     if x != x:
@@ -117,11 +127,18 @@ def job(j):
                     res['lon2'], res['lat2'] = fls(b.mu.to(u.deg).value), fls(b.nu.to(u.deg).value)
             return res
         if k == 'stripe':
-            return {'eta': [fl(pc.stripe_to_eta(s)) for s in j['stripes']],
-                    'incl': [fl(pc.stripe_to_incl(s)) for s in j['stripes']]}
+            conv = {'int': int, 'int64': np.int64, 'int16': np.int16, 'uint8': np.uint8, 'uint16': np.uint16,
+                    'float': float, 'float64': np.float64}[j.get('type', 'int')]
+            with np.errstate(all='ignore'):
+                res = {'eta': [fl(pc.stripe_to_eta(conv(s))) for s in j['stripes']],
+                       'incl': [fl(pc.stripe_to_incl(conv(s))) for s in j['stripes']]}
+            if j.get('frame'):
+                # the frame attribute as the transforms see it
+                res['frame_incl'] = [fl(pc.SDSSMuNu(stripe=conv(s)).incl.to(u.deg).value) for s in j['stripes'][:12]]
+            return res
         if k == 'angles':
             pts = np.array(j['pts'], dtype='d').reshape(-1, 2)
-            lat = bool(j['latitude'])
+            lat = FLAGS[j['flag']]() if 'flag' in j else bool(j['latitude'])
             keep = pts.copy()
             x = angles_to_x(pts, latitude=lat)
             xkeep = x.copy()
@@ -134,7 +151,7 @@ def job(j):
                     'second_call_same': bool(np.array_equal(back, back2, equal_nan=True))}
         if k == 'x2a':
             x = np.array(j['x'], dtype='d').reshape(-1, 3)
-            lat = bool(j['latitude'])
+            lat = FLAGS[j['flag']]() if 'flag' in j else bool(j['latitude'])
             xkeep = x.copy()
             a = x_to_angles(x, latitude=lat)
             x_unchanged = bool(np.array_equal(xkeep, x))
